@@ -2,6 +2,7 @@
 # tools/seedall.sh <patch.diff> [ids...]   - run every (or the given) quick check against a
 # scratch copy of /repo with the patch applied; prints one line per check and a summary.
 patch="$1"; shift
+here="$(cd "$(dirname "$0")/.." && pwd)"
 ids="$*"
 [ -z "$ids" ] && ids="C01 C02 C03 C04 C05 C06 C07 C08 C09 C10 C11 C12 C13 C14 C15 C16 C17 C18 C19"
 export GOFLAGS=-mod=mod GOPROXY=off GOSUMDB=off GOTOOLCHAIN=local
@@ -12,7 +13,7 @@ rsync -a --exclude .git /repo/ "$scratch"/
 if ! (cd "$scratch" && patch -p1 -s --no-backup-if-mismatch < "$patch" >/dev/null 2>&1); then echo "seedall: patch does not apply: $patch"; exit 3; fi
 if ! (cd "$scratch" && go build ./... 2>/dev/null); then echo "seedall: does not compile"; exit 3; fi
 (cd "$scratch" && go test -vet=off -count=1 ./... >/dev/null 2>&1) || echo "seedall: existing tests FAIL with this change"
-cd /verif
+cd "$here" || exit 2
 caught=""
 for id in $ids; do
   start=$(date +%s)
@@ -23,4 +24,4 @@ for id in $ids; do
   [ $code = 1 ] && caught="$caught $id"
 done
 echo "SEEDALL $(basename $(dirname $patch))/$(basename $patch): caught by:${caught:- NONE}"
-rm -f /verif/.build/props-*.test /verif/.build/alt-*.mod /verif/.build/alt-*.sum
+rm -f "$here"/.build/props-*.test "$here"/.build/alt-*.mod "$here"/.build/alt-*.sum
